@@ -9,7 +9,7 @@
    [dac s]: data Write calls that reached the connection after the cancellation; [inflight s]: the chunks of the
    flush that was in progress at that instant ([] if none was).  [rac s]: reads the receiver started after the
    group context was done. *)
-From CH Require Import model.DoLTS proofs.DoLTSProofs proofs.DoLTSProofs2.
+From CH Require Import model.DoLTS proofs.DoLTSProofs proofs.DoLTSProofs2 proofs.DoLTSProofs3.
 
 (* every scenario, every fault, every instant of cancellation, every schedule: if the caller's context ended
    before Do returned and Do returned an error, then the client is closed, the error matches the context's
@@ -45,15 +45,95 @@ Theorem cancel_steps_bounded_partial : forall sc sched s,
 Proof. exact cancel_wellformed_thm. Qed.
 Print Assumptions cancel_steps_bounded_partial.
 
-(* handshake: for every server reply, with and without the addendum flush, every schedule of the hello goroutine,
-   the watchdog and handshake() itself, and every instant at which the caller's (or the handshake timeout's)
-   context ends before handshake() has taken its final look at it: the connection is closed and the error returned
-   matches the context's error *)
-Theorem handshake_cancel : forall addendum reply sched s,
-  s = hrun true addendum reply sched hinit -> hterminal s = true -> h_pc s = true ->
+(* the Write of the one-byte Cancel packet FAILS (the outbound path is broken when the caller gives up; the fault
+   [sc_cancel_wfault]: nothing is written - a one-byte packet has no proper prefix but the empty one): everything
+   cancel_closes says still holds - the client ends closed, the error matches the context's error, all goroutines
+   have returned, nothing but the flush in progress is written - and no Cancel is on the wire *)
+Theorem cancel_closes_cancel_write_fails : forall sc sched s,
+  wf_prog true (sc_prog sc) = true -> sc_cancel_wfault sc = true ->
+  s = run all_fixed sc sched (init sc) ->
+  terminal s = true -> failed s = true -> pcancel s = true ->
+  closed s = true /\ has_ctx (ret s) = true /\ all_done s = true /\
+  count_cancel (wire s) = 0 /\ no_stray (wire s) = true /\ dac s <= length (inflight s).
+Proof. exact cancel_closes_cancel_write_fails_thm. Qed.
+Print Assumptions cancel_closes_cancel_write_fails.
+
+Theorem cancel_write_fault_nothing_written : forall fx sc sched s,
+  sc_cancel_wfault sc = true -> s = run fx sc sched (init sc) -> count_cancel (wire s) = 0.
+Proof. exact cancel_write_fault_thm. Qed.
+Print Assumptions cancel_write_fault_nothing_written.
+
+(* "the call returns" once the context is done, for EVERY server script (a server that repeats the schema block of
+   an INSERT included: the handler Do installs hands the block over through a channel of capacity one in a select
+   that also watches the context), every fault and both configurations: from every reachable state in which the
+   caller's context has ended - more generally the group's context is done, which also covers the failure of one of
+   the three goroutines - some schedule of at most [do_bound sc] steps (a bound that depends on the scenario only)
+   leads to a state in which Do has returned.  The schedule built lets an armed read deadline fire rather than wait
+   for the server (the read timeout of the implementation); with do_terminates_partial (no step increases the
+   variant but a firing deadline) this is the model's half of "returns promptly".
+   NOT proved: that the Go scheduler takes such a schedule; seconds. *)
+Theorem do_returns_when_context_ends : forall fx sc sched0 s,
+  (has_wait (sc_prog sc) = true -> sc_insert sc = true) ->
+  s = run fx sc sched0 (init sc) -> pcancel s = true ->
+  exists sched, length sched <= do_bound sc /\ terminal (run fx sc sched s) = true.
+Proof. exact do_returns_when_context_ends_thm. Qed.
+Print Assumptions do_returns_when_context_ends.
+
+Theorem do_returns_when_group_context_done : forall fx sc sched0 s,
+  (has_wait (sc_prog sc) = true -> sc_insert sc = true) ->
+  s = run fx sc sched0 (init sc) -> cancelled s = true ->
+  exists sched, length sched <= do_bound sc /\ terminal (run fx sc sched s) = true.
+Proof. exact do_returns_when_group_context_done_thm. Qed.
+Print Assumptions do_returns_when_group_context_done.
+
+(* the honest statement for a context that never ends: it is NOT true that Do returns whatever the server does.
+   A server that answers an INSERT with three schema blocks: the sender took the first and has finished, the second
+   sits in the channel, the receiver waits to hand over the third; no goroutine has a step, only the end of the
+   caller's context changes the state (do_waits_for_ever_witness).  This is the observation recorded for C10 in
+   DESIGN.md, now a statement about the model; the seeded change C10C (a plain send instead of the select) makes the
+   wait deaf to the context too. *)
+Theorem do_returns_without_cancel_refuted :
+  ~ (forall sc sched0 s, wf_prog true (sc_prog sc) = true ->
+       (has_wait (sc_prog sc) = true -> sc_insert sc = true) ->
+       s = run all_fixed sc sched0 (init sc) ->
+       exists sched, Forall (fun ga => fst ga <> GEnv) sched /\ terminal (run all_fixed sc sched s) = true).
+Proof. exact do_returns_without_cancel_refuted_thm. Qed.
+Print Assumptions do_returns_without_cancel_refuted.
+
+Theorem do_waits_for_ever_witness : let s := run all_fixed sc_w3 sch_w3 (init sc_w3) in
+  wf_prog true (sc_prog sc_w3) = true /\ terminal s = false /\ pcancel s = false /\ cancelled s = false /\
+  smd s = SDone /\ failed s = false /\ rmd s = RSendInfo /\ ci_item s = true /\
+  forall g alt, g <> GEnv -> step all_fixed sc_w3 g alt s = s.
+Proof. exact witness_3. Qed.
+Print Assumptions do_waits_for_ever_witness.
+
+(* handshake: for every server reply, with and without the addendum flush, whether or not the first (hello) or the
+   second (addendum) Write of the handshake STALLS until the connection is closed (a peer that does not read), every
+   schedule of the hello goroutine, the watchdog and handshake() itself, and every instant at which the caller's (or
+   the handshake timeout's) context ends before handshake() has taken its final look at it: the connection is closed
+   and the error returned matches the context's error *)
+Theorem handshake_cancel : forall addendum st1 st2 reply sched s,
+  s = hrun true addendum st1 st2 reply sched hinit -> hterminal s = true -> h_pc s = true ->
   h_closed s = true /\ has_ctx (h_ret s) = true /\ h_ok s = false.
 Proof. exact handshake_cancel_thm. Qed.
 Print Assumptions handshake_cancel.
+
+(* ... and handshake() does return: whichever write stalls, from every reachable state in which the context has
+   ended at most 13 steps lead to a final state (the watchdog is still there to close the connection, which ends
+   the stalled write; the seeded change C10D moved the addendum write behind the watchdog's retirement) *)
+Theorem handshake_returns_when_context_ends : forall fixed addendum st1 st2 reply sched0 s,
+  s = hrun fixed addendum st1 st2 reply sched0 hinit -> h_pc s = true ->
+  exists sched, length sched <= 13 /\ hterminal (hrun fixed addendum st1 st2 reply sched s) = true.
+Proof. exact handshake_returns_when_context_ends_thm. Qed.
+Print Assumptions handshake_returns_when_context_ends.
+
+(* without the end of the context a stalled write is a handshake that does not return (HandshakeTimeout is what
+   bounds it in practice: it is part of the context handed to handshake()) *)
+Theorem handshake_stalled_write_needs_cancel : let s := hrun true true false true HrHello hsch_stall hinit in
+  hterminal s = false /\ h_pc s = false /\ hmd s = H2Write /\
+  forall g alt, g <> HEnv -> hstep true true false true HrHello g alt s = s.
+Proof. exact witness_hs_stall. Qed.
+Print Assumptions handshake_stalled_write_needs_cancel.
 
 (* the code as found: Cancel was preceded by a stray zero byte (witness_6); after "cancel, then a server
    exception" Do returned the exception, sent no Cancel and left the client open (witness_20) *)
@@ -72,12 +152,12 @@ Print Assumptions cancel_closes_refuted_stray_byte.
 (* the handshake as found: Connect could return a client whose connection the watchdog had closed (witness_hs),
    or the context's error with the connection left open (witness_hs2) *)
 Theorem handshake_cancel_refuted :
-  ~ (forall a r sched s, s = hrun false a r sched hinit -> hterminal s = true -> h_pc s = true ->
+  ~ (forall a st1 st2 r sched s, s = hrun false a st1 st2 r sched hinit -> hterminal s = true -> h_pc s = true ->
        h_closed s = true /\ has_ctx (h_ret s) = true /\ h_ok s = false).
 Proof. exact handshake_cancel_refuted_thm. Qed.
 Print Assumptions handshake_cancel_refuted.
 
-Theorem handshake_cancel_refuted_open : let s := hrun false true HrHello hsch_w2 hinit in
+Theorem handshake_cancel_refuted_open : let s := hrun false true false false HrHello hsch_w2 hinit in
   hterminal s = true /\ h_pc s = true /\ h_closed s = false /\ has_ctx (h_ret s) = true.
 Proof. exact witness_hs2. Qed.
 Print Assumptions handshake_cancel_refuted_open.
@@ -89,3 +169,18 @@ Example c10_witness :
   (terminal s6, failed s6, pcancel s6, closed s6, wire s6, ret s6) = (true, true, true, true, [WChunk true; WCancel], [KCtx]) /\
   (terminal s20, failed s20, pcancel s20, closed s20, wire s20, ret s20) = (true, true, true, true, [WChunk true; WCancel], [KExc; KCtx]).
 Proof. vm_compute. split; reflexivity. Qed.
+
+(* non-vacuity of the new faults and environments: the Cancel write fails on witness 6's schedule (closed, the
+   context's error, no Cancel on the wire, one Close); the server repeats the schema block three times and the
+   context ends in the state of do_waits_for_ever_witness (Do returns: closed, context error, one Cancel); the
+   addendum write stalls, the context ends, the watchdog closes the connection and the write fails *)
+Example c10_witness_faults :
+  let s6 := run all_fixed sc_w6f sch_w6 (init sc_w6f) in
+  let s3 := run all_fixed sc_w3 sch_w3c (init sc_w3) in
+  let h := hrun true true false true HrHello hsch_stall_c hinit in
+  (terminal s6, failed s6, pcancel s6, closed s6, wire s6, ret s6, nclose s6) = (true, true, true, true, [WChunk true], [KCtx], 1) /\
+  (terminal s3, failed s3, pcancel s3, closed s3, wire s3, ret s3, nclose s3) =
+    (true, true, true, true, [WChunk true; WChunk false; WChunk true; WChunk true; WCancel], [KCtx], 1) /\
+  (hterminal h, h_pc h, h_closed h, h_ret h, h_ok h) = (true, true, true, [KIO; KCtx], false) /\
+  do_bound sc_w3 = 75.
+Proof. vm_compute. repeat split; reflexivity. Qed.
